@@ -70,12 +70,18 @@ func checkC06(c *Ctx) {
 	}
 	// ---- R1 -----------------------------------------------------------------------
 	c.check(goSpawn.Tracked, "R1", "follower loop tracked in "+shortFn(unit), goSite, "wg.Add(1) before go, deferred wg.Done in the goroutine")
-	gs := m.GuardsAt(goSite)
+	must := m.GuardsAt(goSite)
+	gs := append(append([]Lit{}, must...), m.controlConds(goSite)...)
 	var foreign []string
-	for _, l := range gs {
+	for i, l := range gs {
 		s := l.S.String()
 		switch {
 		case l.Derived:
+		case i >= len(must) && (m.isClaimLoadSym(l.S) || m.isClaimValueSym(l.S)):
+			// a deciding (not a holding) condition: "still leader and not asked to demote"
+			// returns early - there is nothing to follow yet
+		case i >= len(must) && l.S.Op == "param" && l.S.V != nil && isBoolType(l.S.V.Type()):
+			// the unit's mode flag (demote / stay follower) in that early return
 		case strings.Contains(s, m.path(m.Ctx)) || strings.Contains(s, "/ctx"):
 		case strings.Contains(s, "watcherRunning") || (strings.Contains(s, "(*sync/atomic.Bool).Load(&"+m.ImplName+".") && !m.isClaimLoadSym(l.S)):
 		case strings.Contains(s, m.path(m.State)):
@@ -164,7 +170,12 @@ func checkC06(c *Ctx) {
 			}
 			d, isC := constInt(call.Call.Args[0])
 			if !isC {
-				return // computed waits (jitter, backoff) belong to the acquisition round: C17
+				// the acquisition round (jitter, backoff: C17) runs in its own goroutine and is not
+				// among these functions: a computed pause here stretches the existence check
+				nPeriod++
+				c.viol("R2", fmt.Sprintf("fallback period in %s (%s)", shortFn(f), call.Call.StaticCallee().Name()), call,
+					"the pause that paces the follower loop is computed (%s), not a constant <= 500 ms: while it grows, a vacancy that no watch event announces is noticed only after the longer pause", clip(m.Gated(call.Call.Args[0]), 200))
+				return
 			}
 			nPeriod++
 			c.check(d > 0 && d <= 500_000_000, "R2", fmt.Sprintf("fallback period in %s (%s)", shortFn(f), call.Call.StaticCallee().Name()), call, "period %d ns (required <= 500 ms)", d)
@@ -203,7 +214,7 @@ func checkC06(c *Ctx) {
 			eachInstr(g, func(x ssa.Instruction) {
 				if get, ok := m.isKVCall(valueOf(x), "Get"); ok {
 					var foreign []string
-					for _, l := range m.GuardsAt(get) {
+					for _, l := range append(append([]Lit{}, m.GuardsAt(get)...), m.controlConds(get)...) {
 						if !m.isClaimLoadSym(l.S) && !l.Derived {
 							foreign = append(foreign, l.String())
 						}
